@@ -139,13 +139,17 @@ class Canvas:
 
 def api(rec):
     def createCanvas(*tensors):
+        from . import hfmodel
         c = Canvas(rec, tensors)
+        c.updates_at_create = hfmodel.STATS["update"]
         rec.canvases.append(c)
         rec.log("createCanvas", "createCanvas", tensors)
         return c
 
     def displayCanvas(c, *a, **k):
+        from . import hfmodel
         rec.displayed.append(c)
+        rec.updates_at_display = hfmodel.STATS["update"]
         rec.log("displayCanvas", "displayCanvas", (c,))
 
     def mk_intersector(cls):
